@@ -233,6 +233,12 @@ class Ctx:
         return ("REPLAY: REPRODUCED" in cp.stdout), out
 
     def ch_batch(self, harness_name: str, src: str, conds: list[Cond]) -> dict[str, Result]:
+        only = os.environ.get("VERIF_ONLY")
+        if only and not any(harness_name.startswith(x) for x in only.split(",")):
+            # development aid: a partial run is never a verdict (exit 3)
+            if not any("VERIF_ONLY" in e for e in self.errors):
+                self.errors.append("partial run (VERIF_ONLY set): not a verdict")
+            return {}
         harness = self.write_harness(harness_name, src)
         results: dict[str, Result] = {}
         with cf.ThreadPoolExecutor(max_workers=self.jobs) as ex:
